@@ -123,6 +123,12 @@ theorem C15_keys_incomplete_site :
     ∃ s ∈ Generated.cacheSites, s.func = "io/parquet.py:ReadParquetFSSpec._plan" ∧ s.cache = "_cached_plan" ∧
       s.uncovered.contains "self._meta" = true ∧ keyComplete s = false := by decide
 
+/-- The token of a parquet file (dataset checksum in `ReadParquetPyarrowFS._name`, key of `_STATS_CACHE`) mentions
+    everything that can tell two states of a file apart without reading it: path, size *and* modification time
+    (an in-place rewrite to the same byte size changes nothing else). -/
+theorem C15_fileinfo_token_complete :
+    ["path", "size", "mtime_ns"].all (fun f => Generated.fileinfoTokenFields.contains f) = true := by decide
+
 /-! ### non-vacuity -/
 
 /-- a capacity-2 history over 3 keys with an overwrite of the oldest key, a hit that reorders, and evictions -/
